@@ -68,8 +68,8 @@ Definition is_hit (e : event) : bool := match fst (fst e) with DHit => true | _ 
 Definition FI (n : node) (c : ctx) (p : persistent) : Prop :=
   existsb is_fetch (c_trace c) = false ->
   p_cache p = [] /\ n <> NHit /\ existsb is_hit (c_trace c) = false.
-Definition FF (c : ctx) (_ : persistent) (_ : bool) : Prop :=
-  existsb is_fetch (c_trace c) = false -> existsb is_hit (c_trace c) = false.
+Definition FF (c : ctx) (p : persistent) (_ : bool) : Prop :=
+  existsb is_fetch (c_trace c) = false -> existsb is_hit (c_trace c) = false /\ p_cache p = [].
 
 Lemma step_fresh orc q n c p c' p' nx :
   FI n c p -> step orc q n c p = (c', p', nx) ->
@@ -95,13 +95,35 @@ Proof.
   destruct (f a), (existsb f l); reflexivity.
 Qed.
 
+Lemma empty_cache_no_hit_before_fetch orc p q rep p' :
+  p_cache p = [] ->
+  run_request orc p q = OK (rep, p') ->
+  existsb is_fetch (r_trace rep) = false -> existsb is_hit (r_trace rep) = false /\ p_cache p' = [].
+Proof.
+  intros Hp. unfold run_request. destruct (run sm_fuel orc q NRecv ctx0 p) as [[[c p1] e]| | |] eqn:E; try discriminate.
+  intros H; inversion H; subst; cbn [r_trace].
+  assert (HF : FF c p' e).
+  { apply (run_inv FI FF orc q (step_fresh orc q)) with (2 := E). unfold FI. cbn. intros _. repeat split; auto; discriminate. }
+  unfold FF in HF. rewrite !existsb_rev. exact HF.
+Qed.
+
 Lemma fresh_no_hit_before_fetch orc q rep p' :
   run_request orc init q = OK (rep, p') ->
   existsb is_fetch (r_trace rep) = false -> existsb is_hit (r_trace rep) = false.
+Proof. intros H Hf. exact (proj1 (empty_cache_no_hit_before_fetch orc init q rep p' eq_refl H Hf)). Qed.
+
+(* the same over a whole history: on a fresh simulator no request runs vcl_hit as long as no request
+   (this one included) has run vcl_fetch *)
+Lemma history_no_hit_before_any_fetch h : forall p rs p',
+  p_cache p = [] -> run_history h p = OK (rs, p') ->
+  Forall (fun r => existsb is_fetch (r_trace r) = false) rs ->
+  Forall (fun r => existsb is_hit (r_trace r) = false) rs /\ p_cache p' = [].
 Proof.
-  unfold run_request. destruct (run sm_fuel orc q NRecv ctx0 init) as [[[c p1] e]| | |] eqn:E; try discriminate.
-  intros H; inversion H; subst; cbn [r_trace].
-  assert (HF : FF c p' e).
-  { apply (run_inv FI FF orc q (step_fresh orc q)) with (2 := E). unfold FI. cbn. intros _. repeat split; discriminate. }
-  unfold FF in HF. rewrite !existsb_rev. exact HF.
+  induction h as [|[orc q] h IH]; intros p rs p' Hp Hr Hf; cbn [run_history] in Hr.
+  - inversion Hr; subst. split; [constructor|exact Hp].
+  - destruct (run_request orc p q) as [[r p1]| | |] eqn:E1; try discriminate.
+    destruct (run_history h p1) as [[rs1 p2]| | |] eqn:E2; try discriminate.
+    inversion Hr; subst. inversion Hf as [|? ? Hf1 Hf2]; subst.
+    destruct (empty_cache_no_hit_before_fetch orc p q r p1 Hp E1 Hf1) as [Hh Hp1].
+    destruct (IH p1 rs1 p' Hp1 E2 Hf2) as [Hh2 Hp2]. split; [constructor; assumption|exact Hp2].
 Qed.
